@@ -256,7 +256,7 @@ def schedule_findings(seed, families=None, full=False, max_findings=4):
         for k in ((2, 3) if full else (rng.choice([2, 3]),)):
             for D in ((2, 4) if full else (rng.choice([2, 3, 4]),)):
                 for st in ((1, 2) if fam in F.ADAPTIVE and fam not in F.SS else (1,)):
-                    for interrupt in (None, 'clear', 'resume'):
+                    for interrupt in (None, 'clear', 'resume', 'rollback', 'reset'):
                         ncfg += 1
                         res = _schedule_one(fam, k, D, st, interrupt, rng, F, Chain, Normal, BaseAdaptiveSupport)
                         nsteps_total += res[1]
@@ -300,7 +300,29 @@ def _schedule_one(fam, k, D, st, interrupt, rng, F, Chain, Normal, BaseAdaptiveS
     findings = []
     discrete = kind in ('int', 'intbox')
     steps = 0
-    for i in range(1, N + 1):
+    if interrupt == 'reset' and not adaptive:
+        return [], 0
+    kept = None
+    cur_start = st if adaptive else 1
+    # 'rollback': save during the slow phase, run on past it, set the SAME chain back to the saved state;
+    # 'reset': run past the slow phase, reset the proposals (an adaptive proposal's duration is measured
+    #          from its start step, which the reset moves to the current proposal step)
+    order = list(range(1, N + 1))
+    if interrupt == 'rollback':
+        j = rng.randrange(1, max(2, k * 2))
+        order = list(range(1, N + 1)) + list(range(j + 1, N + 1))
+    elif interrupt == 'reset':
+        order = list(range(1, N + 1)) + list(range(N + 1, N + k * (D + 2) + 3))
+    pos_in_order = 0
+    for i in order:
+        pos_in_order += 1
+        if interrupt == 'rollback' and pos_in_order <= N and i - 1 == j:
+            kept = pickle.dumps(ch.state)
+        if interrupt == 'rollback' and pos_in_order == N + 1:
+            ch.set_state(pickle.loads(kept))
+        if interrupt == 'reset' and pos_in_order == N + 1:
+            ch.reset_proposals()
+            cur_start = max(slow.nsteps, 1)
         if interrupt == 'clear' and i - 1 == cut:
             ch.clear()
         if interrupt == 'resume' and i - 1 == cut:
@@ -314,7 +336,7 @@ def _schedule_one(fam, k, D, st, interrupt, rng, F, Chain, Normal, BaseAdaptiveS
         steps += 1
         prop = ch.proposed_position
         moved = any(not _eq(prop[p], before[p]) for p in names)
-        due = _due_by_statement(i, k, Dcfg, adaptive, st if adaptive else 1)
+        due = _due_by_statement(i, k, Dcfg, adaptive, cur_start)
         ctx = {'family': fam, 'k': k, 'duration': Dcfg, 'start_step': st, 'iteration': i,
                'interrupt': interrupt, 'cut': cut if interrupt else None}
         if moved and not due:
